@@ -303,6 +303,11 @@ func runRoute(t *testing.T, c spec.Case, e Em) {
 			wg.Wait()
 			return
 		}
+		if it.StaleDial && p.Kind == "grpc" {
+			if r := vp.GRPCDialPing(dg, id, 10*time.Second, true); r.DialErr == "" && r.PingErr == "" {
+				e.Note("stale-dial-succeeded", fmt.Sprint(id))
+			}
+		}
 		wg.Add(2)
 		if it.AcceptFirst {
 			go accept()
